@@ -372,7 +372,16 @@ impl<'a> Gen<'a> {
         let bal = self.run.h.w.balance(sender, &lp);
         let amt = match self.r.below(12) { 0 => bal, 1 => bal / 2, 2 => 1, 3 => bal / 1000 + 1, 4 => bal.saturating_add(1), 5 => bal / 1_000_000 + 1, _ => (bal / 3 + 1).min(bal) };
         let funds = if amt == 0 { vec![] } else { vec![coin(amt, lp)] };
-        self.emit(format!("tx {} {} pm withdraw {}", sender, funds_str(&funds), p.pool_info.pool_identifier));
+        // now and then the message names ANOTHER pool than the one the LP token belongs to (refused: the token is not that
+        // pool's) — preferably a sibling whose switches differ
+        let mut pid = p.pool_info.pool_identifier.clone();
+        if pools.len() > 1 && self.r.chance(1, 8) {
+            let others: Vec<_> = pools.iter().filter(|q| q.pool_info.pool_identifier != pid).collect();
+            let pick = others.iter().find(|q| q.pool_info.status.withdrawals_enabled != p.pool_info.status.withdrawals_enabled).copied()
+                .unwrap_or(others[self.r.below(others.len() as u64) as usize]);
+            pid = pick.pool_info.pool_identifier.clone();
+        }
+        self.emit(format!("tx {} {} pm withdraw {}", sender, funds_str(&funds), pid));
     }
 
     pub fn op_route(&mut self) {
@@ -1170,6 +1179,30 @@ impl<'a> Gen<'a> {
         }
     }
 
+    /// directed scenario for C17: withdrawals (or deposits) are switched off on ONE funded pool; a holder then tries to redeem that
+    /// pool's LP token naming a SIBLING pool (whose switches are on), redeems the sibling's own LP, and tries the direct path
+    pub fn op_scenario_disabled_withdraw_sibling(&mut self) {
+        let pools = self.pools();
+        let live: Vec<_> = pools.iter().filter(|p| !p.total_share.amount.is_zero()).collect();
+        if live.len() < 2 { return self.op_provide(); }
+        let a = live[self.r.below(live.len() as u64) as usize].clone();
+        let Some(b) = live.iter().find(|q| q.pool_info.pool_identifier != a.pool_info.pool_identifier).map(|q| (*q).clone()) else { return };
+        let lp_a = self.run.h.w.cd(&a.pool_info.lp_denom);
+        let holders: Vec<&str> = ["u1", "u2", "u3", "u4", "owner", "out"].into_iter().filter(|u| self.run.h.w.balance(u, &lp_a) > 1).collect();
+        let Some(holder) = holders.first().copied() else { return self.op_provide() };
+        let own = self.run.h.ownership("pm");
+        let owner = own.split('/').next().unwrap_or("owner").to_string();
+        self.emit(format!("tx {} 0 pm config - - - - {} - - false", owner, a.pool_info.pool_identifier));
+        let bal = self.run.h.w.balance(holder, &lp_a);
+        let amt = bal / 3 + 1;
+        self.emit(format!("tx {} {} pm withdraw {}", holder, funds_str(&[coin(amt, lp_a.clone())]), b.pool_info.pool_identifier));
+        self.emit(format!("tx {} {} pm withdraw {}", holder, funds_str(&[coin(amt, lp_a.clone())]), a.pool_info.pool_identifier));
+        if self.r.chance(1, 2) {
+            self.emit(format!("tx {} 0 pm config - - - - {} - - true", owner, a.pool_info.pool_identifier));
+            self.emit(format!("tx {} {} pm withdraw {}", holder, funds_str(&[coin(amt, lp_a)]), a.pool_info.pool_identifier));
+        }
+    }
+
     /// directed scenario for C12 / C04: two constant-product pools on the SAME pair at different prices, then a route that
     /// goes out through one and comes back through the other (each pool visited once): the amount received must be the
     /// SimulateSwapOperations answer, and nothing but the final output may reach the receiver
@@ -1330,7 +1363,8 @@ pub fn gen_pm_case(r: &mut Rng, id: u64, len: u64, faults: bool, o: &mut Out) {
         // everybody leaves a constant-product pool and somebody deposits again
         for _ in 0..2 { g.op_create_pool(); }
         for _ in 0..6 { g.op_provide(); }
-        match (id / 3) % 4 { 0 => g.op_scenario_disabled_route(), 1 => g.op_scenario_full_exit_redeposit(), 2 => g.op_scenario_twin_pools_cycle(), _ => g.op_scenario_waived_creation_fee() }
+        match (id / 3) % 5 { 0 => g.op_scenario_disabled_route(), 1 => g.op_scenario_full_exit_redeposit(), 2 => g.op_scenario_twin_pools_cycle(), 3 => g.op_scenario_waived_creation_fee(),
+            _ => g.op_scenario_disabled_withdraw_sibling() }
     }
     while g.ops < len {
         match g.r.below(40) {
@@ -1446,7 +1480,8 @@ pub fn run_auth(o: &mut Out) {
     let mut id = 0u64;
     for sc in scenarios.iter() {
         for c in contracts.iter() {
-            let variants: Vec<&str> = if *c == "fc" { vec!["transfer", "accept", "renounce"] } else { vec!["config", "transfer", "accept", "renounce"] };
+            // (`config_empty`: UpdateConfig with every field absent — still a privileged, non-payable message)
+            let variants: Vec<&str> = if *c == "fc" { vec!["transfer", "accept", "renounce"] } else { vec!["config", "config_empty", "transfer", "accept", "renounce"] };
             for v in variants.iter() {
                 for sender in senders.iter() {
                     for with_funds in [false, true] {
@@ -1476,6 +1511,9 @@ pub fn run_auth(o: &mut Out) {
                             ("pm", "config") => "config - - uusd 777 - - - -".to_string(),
                             ("fm", "config") => "config - - - - - - 7 - - - -".to_string(),
                             ("em", "config") => format!("config 172800 {}", now / 1_000_000_000 + 500_000),
+                            ("pm", "config_empty") => "config - - - - - - - -".to_string(),
+                            ("fm", "config_empty") => "config - - - - - - - - - - -".to_string(),
+                            ("em", "config_empty") => "config - -".to_string(),
                             (_, "transfer") => "own transfer u2 -".to_string(),
                             (_, "accept") => "own accept".to_string(),
                             _ => "own renounce".to_string(),
@@ -1489,6 +1527,7 @@ pub fn run_auth(o: &mut Out) {
                             "transferred" => (Some("u1"), None, false),
                             _ => (None, None, false),
                         };
+                        let v = if *v == "config_empty" { "config" } else { *v };
                         o.line(&format!("mon_auth {} {} {} {} {} {}", v, (res == "ok") as u8, (owner == Some(*sender)) as u8,
                             (pending == Some(*sender)) as u8, expired as u8, with_funds as u8), "ok");
                         o.raw("end");
@@ -1608,11 +1647,13 @@ pub fn run_twin(seed: u64, cases: u64, o: &mut Out) {
             let oi = r.below(2) as usize;
             let (od, ad) = (p.assets[oi].denom.clone(), p.assets[1 - oi].denom.clone());
             let res = p.assets[oi].amount.u128();
-            let a = (res / [10_000u128, 1000, 100, 20][r.below(4) as usize] + 1 + r.below(2) as u128).max(2);
-            let ss = ["-", "500000000000000000", "1000000000000000000"][r.below(3) as usize];
+            let a = (res / [10_000u128, 1000, 100, 20, 10, 5][r.below(6) as usize] + 1 + r.below(2) as u128).max(2);
+            let ss = ["-", "-", "500000000000000000", "1000000000000000000", "30000000000000000"][r.below(5) as usize];
             // the deposit leg's own tolerance: absent, or tighter / looser than the pool's fees (the proceeds of the
             // swapped half are short of the pool ratio by the fees, so a tight tolerance refuses the second step)
-            let ls = ["-", "-", "10000000000000000", "50000000000000000", "300000000000000000", "0", "2000000000000000"][r.below(7) as usize];
+            // (with NO swap tolerance the internal swap runs under the 1 % default, whatever the deposit tolerance is: a large
+            // deposit under a loose deposit tolerance only must be refused exactly when the manual swap is)
+            let ls = ["-", "-", "10000000000000000", "50000000000000000", "300000000000000000", "0", "2000000000000000", "500000000000000000", "300000000000000000"][r.below(9) as usize];
             let (unlock, lockid) = match r.below(3) { 0 => ((DAY * (1 + r.below(100))).to_string(), "-".to_string()), 1 => ((DAY * (1 + r.below(100))).to_string(), "tw".to_string()), _ => ("-".into(), "-".into()) };
             let lp = run_a.h.w.cd(&p.lp_denom);
             // A: single-asset deposit
